@@ -125,11 +125,36 @@ fn ref_site(i: &Ins) -> (&'static str, String) {
 /// The lowering the property texts state: C15 (before / replacement-or-instruction / after; at
 /// the final end only before) and C21 (region replaced by the block-alternate). Returns None if
 /// the function carries special modes whose lowering the properties do not fix structurally.
+/// `mask[i]` = instruction i lies strictly inside a construct or else-arm that is replaced through
+/// block-alternate (between the opener / `else` and the closing `end`, both excluded): it is removed
+/// together with whatever instrumentation it carries.
+pub fn removed_mask(l: &MLocal) -> Vec<bool> {
+    let n = l.body.len();
+    let mut mask = vec![false; n];
+    let mut i = 0;
+    while i < n {
+        if l.body[i].block_alt.is_some() && l.body[i].ins.is_block_style() {
+            if let Some((a, b)) = block_region(&l.body, i) {
+                // opener: (a, matching end); else: (else, last instruction of the arm)
+                let last_inside = if matches!(l.body[i].ins, Ins::Else) { b } else { b.saturating_sub(1) };
+                for m in mask.iter_mut().take(last_inside + 1).skip(a + 1) {
+                    *m = true;
+                }
+                i = last_inside + 1;
+                continue;
+            }
+        }
+        i += 1;
+    }
+    mask
+}
+
 pub fn expected_body(l: &MLocal) -> Option<Vec<(Ins, String)>> {
     if !l.entry.ins.is_empty() || !l.exit.ins.is_empty() {
         return None;
     }
-    if l.body.iter().any(|i| !i.sem_after.ins.is_empty() || !i.block_entry.ins.is_empty() || !i.block_exit.ins.is_empty()) {
+    let mask = removed_mask(l);
+    if l.body.iter().enumerate().any(|(k, i)| !mask[k] && (!i.sem_after.ins.is_empty() || !i.block_entry.ins.is_empty() || !i.block_exit.ins.is_empty())) {
         return None;
     }
     let n = l.body.len();
@@ -643,12 +668,26 @@ pub fn check_output(model: &Model, bytes: &[u8]) -> Result<Vec<Mismatch>, String
             }
         }
         // probe presence (special modes and everything else): magic must occur, followed by body
+        let removed = removed_mask(l);
         for (f, magic, mode, api, instr) in model.accepted_probes.iter().filter(|p| p.0 == id && p.1 != 0) {
             let _ = f;
             if probe_expected_to_vanish(l, *instr as usize, *mode) {
+                // instrumentation of an instruction strictly inside a replaced construct is removed
+                // with it (C21); a semantic-after body of a *branch* may legitimately survive as
+                // unreachable code at the branch target's end outside the region, so it is not judged
+                let inside = removed.get(*instr as usize).copied().unwrap_or(false);
+                let branch_sa = *mode == Mode::SemanticAfter && l.body.get(*instr as usize).map_or(false, |b| b.ins.is_branch());
+                if inside && !branch_sa && of.body.iter().any(|i| *i == Ins::I32Const(*magic)) {
+                    mm.push(Mismatch::new(
+                        "removed_region_probe",
+                        mode.name(),
+                        format!("func {:#x} instr {instr}: probe magic {:#x} of an instruction inside a replaced construct is in the encoded function", l.magic, magic),
+                    ));
+                }
                 continue;
             }
             let occ: Vec<usize> = of.body.iter().enumerate().filter(|(_, i)| **i == Ins::I32Const(*magic)).map(|(k, _)| k).collect();
+            let _ = &occ;
             if occ.is_empty() {
                 mm.push(Mismatch::new(
                     "probe_missing",
